@@ -25,7 +25,7 @@ from .stacks import payload_for, decode_frame
 class ScriptedServerPeer(Client):
 
     def __init__(self, lan, address, max_apdu, grant, propose, seg_size, rsp_size, token,
-                 withhold=None, ack_every=None, resend_after=1.0):
+                 withhold=None, ack_every=None, resend_after=1.0, grants=None):
         """grant: window it writes into its SegmentAcks (capped by what the requester proposed); propose: window it
         proposes in the first segment of its answer; seg_size: service octets per answer segment; withhold: None |
         'final-ack' (never sent) | 'final-ack-late' (sent after the first answer segment)"""
@@ -36,6 +36,9 @@ class ScriptedServerPeer(Client):
         self.max_apdu, self.grant, self.propose, self.seg_size = max_apdu, grant, propose, seg_size
         self.rsp_size, self.token = rsp_size, token
         self.withhold, self.ack_every, self.resend_after = withhold, ack_every, resend_after
+        self.grants = grants          # windows granted by the successive SegmentAcks (the last one repeats); None: always `grant`
+        self.acks_sent = 0
+        self.client_win = None
         self.req = {}               # seq -> octets of the request in progress
         self.req_done = False
         self.actual_rx = None
@@ -57,6 +60,11 @@ class ScriptedServerPeer(Client):
         self.request(PDU(octets, destination=self.client))
 
     def seg_ack(self, seq, nak=False):
+        if self.grants and self.client_win is not None:
+            # a peer may change the window it grants from one acknowledgement to the next (it is short of buffers now)
+            self.acks_sent += 1
+            g = self.grants[min(self.acks_sent - 1, len(self.grants) - 1)]
+            self.actual_rx = max(1, min(self.client_win, g))
         self.send({"type": W.SEGMENT_ACK, "nak": nak, "srv": True, "invoke": self.invoke, "seq": seq & 0xFF, "win": self.actual_rx})
 
     def build_answer(self):
@@ -127,6 +135,7 @@ class ScriptedServerPeer(Client):
                 return
             self.req[expected] = ap["payload"]
             if expected == 0:
+                self.client_win = ap["win"]
                 self.actual_rx = max(1, min(ap["win"], self.grant))
                 self.since_ack = 0
                 self.seg_ack(0)
@@ -172,6 +181,7 @@ def judge(frames, requester, peer, peer_max_apdu, requester_window, report, stat
     acked = -1                  # highest request segment the peer acknowledged (absolute index)
     sent_hi = -1
     proposed = None             # window the peer proposed in the first segment of its answer
+    permit = 0                  # highest request segment any acknowledgement so far allows
     for rec in frames:
         d = decode_frame(rec)
         ap = d.get("apci")
@@ -184,6 +194,10 @@ def judge(frames, requester, peer, peer_max_apdu, requester_window, report, stat
                 if k < acked:
                     k += 256
                 acked = max(acked, k) if not ap["nak"] else acked
+                # frames travel one after the other: when the requester sends a segment it may be acting on an acknowledgement
+                # that is already followed by newer ones on the wire.  A segment is in order when SOME acknowledgement sent
+                # so far allows it (acknowledged + window)
+                permit = max(permit, k + ap["win"])
             elif ap["type"] == W.COMPLEX_ACK and ap["seg"] and ap["seq"] == 0:
                 proposed = ap["win"]
             continue
@@ -201,9 +215,7 @@ def judge(frames, requester, peer, peer_max_apdu, requester_window, report, stat
             if k > sent_hi:
                 sent_hi = k
                 # how far ahead of the last acknowledgement?
-                ahead = k - acked
-                limit = 1 if granted is None else granted
-                if ahead > limit and not (granted is None and k == 0):
+                if k > permit and not (granted is None and k == 0):
                     report("more-request-segments-outstanding-than-the-peer-granted", {"segment": k, "acknowledged": acked, "granted": granted, "frame": rec["n"]})
         elif ap["type"] == W.SEGMENT_ACK and not ap["srv"]:
             stats["answer_acks_judged"] = stats.get("answer_acks_judged", 0) + 1
